@@ -427,6 +427,50 @@ def _alpha_equiv(mt, it, user_words):
                 expect[q] = b
     return expect == it
 
+def _self_paths(item):
+    """inside `impl … Type … { … }`, spell `Self ::` as `Type ::` (the two are the same path there)"""
+    toks = _merge_punct(list(item))
+    k = 0
+    while k < len(toks) and toks[k] == '#':          # attributes
+        d = 0
+        k += 1
+        while k < len(toks):
+            if toks[k] == '[':
+                d += 1
+            elif toks[k] == ']':
+                d -= 1
+                if d == 0:
+                    k += 1
+                    break
+            k += 1
+    if k >= len(toks) or toks[k] != 'impl':
+        return toks
+    # header up to the opening brace at angle depth 0
+    j = k + 1
+    depth = 0
+    hdr = []
+    while j < len(toks) and not (toks[j] == '{' and depth == 0):
+        if toks[j] == '<':
+            depth += 1
+        elif toks[j] == '>':
+            depth -= 1
+        hdr.append((toks[j], depth))
+        j += 1
+    names = [t for (t, dpt) in hdr if dpt == 0 and _IDENT_RE.match(t) and t not in ('for', 'where', 'impl', 'dyn', 'crate', 'core', 'state_machines')]
+    if 'for' in [t for (t, dpt) in hdr if dpt == 0]:
+        idx = [i for i, (t, dpt) in enumerate(hdr) if t == 'for' and dpt == 0][-1]
+        names = [t for (t, dpt) in hdr[idx + 1:] if dpt == 0 and _IDENT_RE.match(t) and t not in ('where', 'crate', 'core', 'state_machines')]
+    if not names:
+        return toks
+    ty = names[0] if 'for' in [t for (t, dpt) in hdr if dpt == 0] else names[-1] if False else names[0]
+    out = toks[:j]
+    for i in range(j, len(toks)):
+        if toks[i] == 'Self' and i + 1 < len(toks) and toks[i + 1] == '::':
+            out.append(ty)
+        else:
+            out.append(toks[i])
+    return out
+
 def _user_words(lines):
     """the user's own identifiers, read off the front-end dump: everything but the line kinds and the field
     labels (`event go p=- g=a,b` contributes go, a, b; not `event`, `p`, `g`)"""
@@ -472,6 +516,11 @@ def compare_one(model, impl):
             if len(mt) == len(it) and _canon_items(mt) == _canon_items(it):
                 notes.append('item-order')
                 continue
+            if len(mt) == len(it):
+                mi, ii = _split_items(mt), _split_items(it)
+                if len(mi) == len(ii) and all(a == b or _self_paths(a) == _self_paths(b) for a, b in zip(mi, ii)):
+                    notes.append('self-path')
+                    continue
             if len(mt) == len(it):
                 # scope by scope: a local never crosses a top-level item
                 mi, ii = _split_items(mt), _split_items(it)
